@@ -172,6 +172,17 @@ fn gen_history(r: &mut Rng, big: bool) -> Vec<String> {
             let id = r.below(universe);
             let kk = if r.chance(1, 8) { r.below(5) } else { kind };
             let v = if r.chance(1, 10) && !stored.is_empty() { stored.values().nth(r.usize(stored.len())).unwrap().clone() } else { gen_vec(r, cfg.dim, kk) };
+            if r.chance(1, 30) {
+                // refused inserts: wrong dimension, NaN, infinity (the index must stay unchanged)
+                let mut h = hex_bf16(&v);
+                match r.below(3) {
+                    0 => h.push_str("3f80"),
+                    1 => h.replace_range(0..4, "7fc0"),
+                    _ => h.replace_range(0..4, "ff80"),
+                }
+                ops.push(format!("ins {id} {h}"));
+                continue;
+            }
             ops.push(format!("ins {id} {}", hex_bf16(&v)));
             stored.entry(id).or_insert(v); // a duplicate insert is rejected by the index
         } else if c < 62 {
@@ -240,7 +251,9 @@ fn gen_graph(r: &mut Rng) -> Vec<String> {
     let dim = r.range(2, 8) as usize;
     let metric = *r.pick(&['e', 'c', 'i', 'm']);
     let efs = *r.pick(&[1usize, 1, 2, 3, 5, 50]);
-    let max_layers = *r.pick(&[1u8, 2, 3, 4]);
+    // the metadata may carry a `max_layers` that `load_metadata` normalises (clamp to 1..=64)
+    let raw_layers = *r.pick(&[1u8, 2, 3, 4, 1, 2, 3, 4, 1, 2, 3, 4, 0, 100, 255]);
+    let max_layers = raw_layers.clamp(1, 64).min(4);
     let n = r.range(1, 24) as usize;
     let universe = (n as u64) * 2 + 2;
     let mut ids: Vec<u64> = vec![];
@@ -276,7 +289,10 @@ fn gen_graph(r: &mut Rng) -> Vec<String> {
             0 => format!("{} bid={}", blobs[i], universe + 1),
             1 => format!("{} nan", blobs[i]),
             2 => format!("gn {} {} {} {}", t[1], t[2], hex_bf16(&gen_vec(r, dim + 1, kind)), t[4]),
-            3 => format!("gn {} {} {} {}", t[1], max_layers, t[3], vec!["-"; max_layers as usize + 1].join(";")),
+            3 => {
+                let eff = raw_layers.clamp(1, 64);
+                format!("gn {} {} {} {}", t[1], eff, t[3], vec!["-"; eff as usize + 1].join(";"))
+            }
             _ => format!("gn {} {} {} {};-", t[1], t[2], t[3], t[4]),
         };
     }
@@ -291,10 +307,10 @@ fn gen_graph(r: &mut Rng) -> Vec<String> {
     id_set.sort();
     let (eid, elayer) = match r.below(6) {
         0 => (r.below(universe + 3), r.below(5)),
-        1 => (ids[r.usize(ids.len())], r.below(6)),
+        1 => (ids[r.usize(ids.len())], *r.pick(&[0u64, 1, 2, 3, 5, 70, 200])),
         _ => (ids[r.usize(ids.len())], r.below(max_layers as u64)),
     };
-    let mut ops = vec![format!("g {dim} {metric} {efs} {max_layers} {eid} {elayer} {}", if id_set.is_empty() { "-".to_string() } else { join(&id_set, ",") })];
+    let mut ops = vec![format!("g {dim} {metric} {efs} {raw_layers} {eid} {elayer} {}", if id_set.is_empty() { "-".to_string() } else { join(&id_set, ",") })];
     ops.extend(blobs);
     ops.push("gload".into());
     let cfg = Cfg { dim, metric, strategy: 'h', m: 4, efc: 8, efs, max_layers, reconnect: false };
@@ -456,6 +472,15 @@ fn main() {
         }
     }
 
+    // which branches of the MODEL the correspondence run visited (counted by the driver)
+    if let Some(m) = model.as_mut() {
+        let cov = m.ask("cov");
+        for kv in cov.split_whitespace() {
+            if let Some((k, v)) = kv.rsplit_once('=') {
+                rep.hit_n(&format!("model-branch:{k}"), v.parse().unwrap_or(0));
+            }
+        }
+    }
     if args.replay.is_none() {
         recall::suite(&rt, &args, &mut rep);
     }
